@@ -238,11 +238,13 @@ func parseIDNumberToFloat64(idStr string) float64 {
 	return f
 }
 
-// shiftLongIntegerPart - strconv.ParseFloat keeps at most 800 digits of a number and, when the
-// part before the point is longer than that, loses count of the digits it has dropped:
-// 1 followed by 800 zeros and e-800 comes out as 0.1. A very long integer part is therefore
-// rewritten as a fraction with a larger exponent (123…e5 -> 0.123…e(5+n)), the form in which
-// dropped digits only matter for rounding.
+// shiftLongIntegerPart - strconv.ParseFloat keeps at most 800 digits of a number and stops
+// counting an exponent at 10000: when the part before the point is longer than that it loses
+// count of the digits it has dropped (1 followed by 800 zeros and e-800 comes out as 0.1), and a
+// value that a six-digit exponent brings back into range comes out as 0. A number with a very
+// long digit string or a large exponent is therefore rewritten with its first significant digit
+// right after the point (00123.4e5 -> 0.1234e8), the form in which dropped digits only matter
+// for rounding and an exponent beyond 10000 decides the value by itself.
 func shiftLongIntegerPart(v string) string {
 	sign, rest := "", v
 	if len(rest) > 0 && (rest[0] == '+' || rest[0] == '-') {
@@ -252,28 +254,34 @@ func shiftLongIntegerPart(v string) string {
 	if i := strings.IndexAny(rest, "eE"); i >= 0 {
 		mant, exp = rest[:i], rest[i+1:]
 	}
+	if len(mant) <= 700 && len(exp) <= 4 {
+		return v
+	}
 	intPart, frac := mant, ""
 	if i := strings.IndexByte(mant, '.'); i >= 0 {
 		intPart, frac = mant[:i], mant[i+1:]
 	}
-	if len(intPart) <= 700 {
-		return v
-	}
-	e := 0
-	if exp != "" {
-		n, err := strconv.Atoi(exp)
-		if err != nil {
-			return v
-		}
-		e = n
-	}
 	// (an exponent this far out decides the value whatever the digits are; bounding it keeps
 	// the sum below inside the integers)
 	const expBound = 1 << 40
-	if e > expBound {
-		e = expBound
-	} else if e < -expBound {
-		e = -expBound
+	e := 0
+	if exp != "" {
+		n, err := strconv.Atoi(exp)
+		switch {
+		case err != nil && strings.HasPrefix(exp, "-"):
+			e = -expBound
+		case err != nil || n > expBound:
+			e = expBound
+		case n < -expBound:
+			e = -expBound
+		default:
+			e = n
+		}
 	}
-	return sign + "0." + intPart + frac + "e" + strconv.Itoa(e+len(intPart))
+	digits := strings.TrimLeft(intPart+frac, "0")
+	if digits == "" {
+		return sign + "0"
+	}
+	leadingZeros := len(intPart) + len(frac) - len(digits)
+	return sign + "0." + digits + "e" + strconv.Itoa(e+len(intPart)-leadingZeros)
 }
